@@ -1,7 +1,7 @@
 (** C18 — share identifiers and containers survive the wire unchanged or are refused.
     Property theorems only; each is closed by [exact] of a lemma proved elsewhere. *)
 From Coq Require Import List ZArith.
-From CN Require Import Base.Bytes Shwap.Ids Shwap.IdsProofs.
+From CN Require Import Base.Bytes Shwap.Ids Shwap.IdsProofs Base.Varint Base.VarintProofs Shwap.Wire Shwap.WireProofs Shwap.Containers Shwap.ContainersProofs.
 Import ListNotations.
 Open Scope Z_scope.
 
@@ -46,3 +46,176 @@ Theorem C18_nonvacuous :
   new KRange 512 (mkid 7 262143 262144 []) <> None /\ new KNd 0 (mkid 9 0 0 ns_example) <> None /\
   new KRangeV0 512 (mkid 7 65000 65535 []) <> None.
 Proof. exact roundtrip_nonvacuous. Qed.
+Print Assumptions C18_nonvacuous.
+
+(** * Containers: Sample, Row, RowNamespaceData, NamespaceData, RangeNamespaceData in protobuf and length-delimited stream form.
+    Model: Shwap/Containers.v over Shwap/Wire.v and Base/Varint.v; tied byte-for-byte to the real encoders and decoders by
+    harness/share/shwap/zz_verif_c18_containers_test.go.  [small bs] = the encoding is shorter than 2^63 bytes (true of every Go slice). *)
+
+(** Varints: both decoders (gogo's generated loop, encoding/binary.ReadUvarint) invert the encoder for every uint64, whatever follows. *)
+Theorem C18_varint_roundtrip : forall v rest, 0 <= v < two64 ->
+  pb_uvarint (uvarint_enc v ++ rest) = Some (v, rest) /\ std_uvarint (uvarint_enc v ++ rest) = Some (v, rest).
+Proof. exact varint_roundtrip. Qed.
+Print Assumptions C18_varint_roundtrip.
+
+(** ... and refuse more than ten bytes and truncated encodings. *)
+Theorem C18_varint_overlong_refused : forall bs, (10 <= length bs)%nat -> Forall (fun b => 128 <= b) (firstn 10 bs) ->
+  pb_uvarint bs = None /\ std_uvarint bs = None.
+Proof. exact varint_overlong_refused. Qed.
+Print Assumptions C18_varint_overlong_refused.
+
+Theorem C18_varint_truncated_refused : forall v k, 0 <= v -> (k < length (uvarint_enc v))%nat ->
+  pb_uvarint (firstn k (uvarint_enc v)) = None /\ std_uvarint (firstn k (uvarint_enc v)) = None.
+Proof. exact varint_truncated_refused. Qed.
+Print Assumptions C18_varint_truncated_refused.
+
+(** Two's complement: int64 Start/End and int32 enums survive the uint64 varint. *)
+Theorem C18_twos_complement : forall z, (in_i64 z = true -> i64_of_u64 (u64_of_int z) = z) /\ (in_i32 z = true -> i32_of_u64 (u64_of_int z) = z).
+Proof. exact twos_complement. Qed.
+Print Assumptions C18_twos_complement.
+
+(** The protobuf wire layer: the tokeniser every generated Unmarshal shares inverts the encoder. *)
+Theorem C18_wire_roundtrip : forall fs, Forall field_ok fs -> decode_fields (encode_fields fs) = Ok fs.
+Proof. exact decode_encode_fields. Qed.
+Print Assumptions C18_wire_roundtrip.
+
+(** Every well-formed container encodes to protobuf bytes that decode back to it — up to the normalisation the Go code itself performs:
+    a sample's leaf hash is not read back; a Both row travels as its Left half; a range proof with Start = End = 0 comes back empty;
+    RowNamespaceData comes back unchanged. *)
+Theorem C18_sample_roundtrip : forall s bs,
+  sample_wf s = true -> sample_to_bytes s = EBytes bs -> small bs = true -> sample_from_bytes bs = Ok (sample_canon s).
+Proof. exact sample_roundtrip. Qed.
+Print Assumptions C18_sample_roundtrip.
+
+Theorem C18_row_roundtrip : forall r bs,
+  row_wf r = true -> row_to_bytes r = EBytes bs -> small bs = true -> row_from_bytes bs = Ok (row_canon r).
+Proof. exact row_roundtrip. Qed.
+Print Assumptions C18_row_roundtrip.
+
+Theorem C18_rnd_roundtrip : forall d bs,
+  rnd_wf d = true -> rnd_to_bytes d = EBytes bs -> small bs = true -> rnd_from_bytes bs = Ok d.
+Proof. exact rnd_roundtrip. Qed.
+Print Assumptions C18_rnd_roundtrip.
+
+Theorem C18_range_roundtrip : forall g bs,
+  range_wf g = true -> range_to_bytes g = EBytes bs -> small bs = true -> range_from_bytes bs = Ok (range_canon_pb g).
+Proof. exact range_roundtrip. Qed.
+Print Assumptions C18_range_roundtrip.
+
+(** The same through the length-delimited stream (WriteTo / ReadFrom into a fresh value).  Single-message containers leave what
+    follows unread; NamespaceData comes back unchanged; a range comes back with the proofs the row framing can carry
+    (none for an empty range, only the first for a single row). *)
+Theorem C18_sample_stream_roundtrip : forall s bs rest,
+  sample_wf s = true -> sample_to_stream s = EBytes bs -> sample_read (bs ++ rest) = Ok (sample_canon s, rest).
+Proof. exact sample_stream_roundtrip. Qed.
+Print Assumptions C18_sample_stream_roundtrip.
+
+Theorem C18_row_stream_roundtrip : forall r bs rest,
+  row_wf r = true -> row_to_stream r = EBytes bs -> row_read (bs ++ rest) = Ok (row_canon r, rest).
+Proof. exact row_stream_roundtrip. Qed.
+Print Assumptions C18_row_stream_roundtrip.
+
+Theorem C18_rnd_stream_roundtrip : forall d bs rest,
+  rnd_wf d = true -> rnd_to_stream d = EBytes bs -> rnd_read (bs ++ rest) = Ok (d, rest).
+Proof. exact rnd_stream_roundtrip. Qed.
+Print Assumptions C18_rnd_stream_roundtrip.
+
+Theorem C18_nd_stream_roundtrip : forall nd bs, nd_wf nd = true -> nd_to_stream nd = EBytes bs -> nd_read bs = Ok nd.
+Proof. exact nd_stream_roundtrip. Qed.
+Print Assumptions C18_nd_stream_roundtrip.
+
+Theorem C18_range_stream_roundtrip : forall g bs,
+  range_wf g = true -> range_to_stream g = EBytes bs -> range_read bs = Ok (range_canon_stream g).
+Proof. exact range_stream_roundtrip. Qed.
+Print Assumptions C18_range_stream_roundtrip.
+
+(** Where the normalisations are the identity the value itself comes back. *)
+Theorem C18_canon_identity :
+  (forall s, (forall p, s_proof s = Some p -> p_leaf p = []) -> sample_canon s = s) /\
+  (forall r, r_side r <> 2 -> row_canon r = r) /\
+  (forall g, (forall p, g_first g = Some p \/ g_last g = Some p -> p_start p <> 0 \/ p_end p <> 0) -> range_canon_pb g = g) /\
+  (forall g, (2 <= length (g_rows g))%nat -> range_canon_stream g = g).
+Proof. exact canon_identity. Qed.
+Print Assumptions C18_canon_identity.
+
+(** Every container decoder is total: on any byte string it returns a value or an error (no recursion budget of the model is
+    ever exhausted; that the Go code does not panic where the model says "error" is what the harness ties). *)
+Theorem C18_container_decoders_total : forall f k bs, model_dec f k bs <> Fuel.
+Proof. exact model_dec_total. Qed.
+Print Assumptions C18_container_decoders_total.
+
+(** What a decoder accepts is well formed: every share has 512 bytes, a range in protobuf form has no empty row, a row is a Left or
+    Right half, a sample carries a proof. *)
+Theorem C18_decoded_wellformed : forall f k bs c, model_dec f k bs = Ok c -> cont_decoded_ok f c.
+Proof. exact decoded_wellformed. Qed.
+Print Assumptions C18_decoded_wellformed.
+
+(** A known field carrying another wire type is refused wherever it occurs in the message. *)
+Theorem C18_wrong_wiretype_refused : forall k n v wt a b bs c,
+  k <> KNdC -> known_wt k n = Some wt -> wtype v <> wt -> decode_fields bs = Ok (a ++ (n, v) :: b) -> model_dec FProto k bs <> Ok c.
+Proof. exact wrong_wiretype_refused_bytes. Qed.
+Print Assumptions C18_wrong_wiretype_refused.
+
+(** A frame of the delimited stream cut short anywhere is never accepted, so every truncation of a Sample / Row / RowNamespaceData
+    stream is an error. *)
+Theorem C18_frame_truncated_refused : forall m bs k, write_frame m = Some bs -> (k < length bs)%nat ->
+  read_frame (firstn k bs) = FErr \/ read_frame (firstn k bs) = FEof.
+Proof. exact read_frame_truncated. Qed.
+Print Assumptions C18_frame_truncated_refused.
+
+Theorem C18_stream_truncated_refused : forall f c bs k,
+  f = FStream -> (match c with CNd _ | CRange _ => False | _ => True end) -> model_enc f c = EBytes bs -> (k < length bs)%nat ->
+  model_dec f (match c with CSample _ => KSampleC | CRow _ => KRowC | CRnd _ => KRndC | CNd _ => KNdC | CRange _ => KRangeC end) (firstn k bs) = Err.
+Proof. exact stream_truncated_refused. Qed.
+Print Assumptions C18_stream_truncated_refused.
+
+(** Protobuf form: a message cut inside a field is refused; cut exactly between two fields it is the message with fewer fields
+    (inherent to protobuf: a message carries no length of its own). *)
+Theorem C18_wire_truncated : forall fs k, Forall field_ok fs -> (k < length (encode_fields fs))%nat ->
+  decode_fields (firstn k (encode_fields fs)) = Err \/
+  exists j, (j < length fs)%nat /\ decode_fields (firstn k (encode_fields fs)) = Ok (firstn j fs).
+Proof. exact decode_fields_truncated. Qed.
+Print Assumptions C18_wire_truncated.
+
+(** NamespaceData stream (a bare sequence of frames): cut anywhere it yields an error or a proper prefix of the rows, never a
+    wrong or partial row. *)
+Theorem C18_nd_stream_truncated : forall nd bs k,
+  nd_wf nd = true -> nd_to_stream nd = EBytes bs -> (k < length bs)%nat ->
+  nd_read (firstn k bs) = Err \/ exists j, (j < length nd)%nat /\ nd_read (firstn k bs) = Ok (firstn j nd).
+Proof. exact nd_stream_truncated. Qed.
+Print Assumptions C18_nd_stream_truncated.
+
+(** No encoder silently alters a field: the bytes determine the container (up to the same normalisation). *)
+Theorem C18_container_enc_injective :
+  (forall s1 s2 bs, sample_wf s1 = true -> sample_wf s2 = true -> small bs = true ->
+     sample_to_bytes s1 = EBytes bs -> sample_to_bytes s2 = EBytes bs -> sample_canon s1 = sample_canon s2) /\
+  (forall r1 r2 bs, row_wf r1 = true -> row_wf r2 = true -> small bs = true ->
+     row_to_bytes r1 = EBytes bs -> row_to_bytes r2 = EBytes bs -> row_canon r1 = row_canon r2) /\
+  (forall d1 d2 bs, rnd_wf d1 = true -> rnd_wf d2 = true -> small bs = true ->
+     rnd_to_bytes d1 = EBytes bs -> rnd_to_bytes d2 = EBytes bs -> d1 = d2) /\
+  (forall g1 g2 bs, range_wf g1 = true -> range_wf g2 = true -> small bs = true ->
+     range_to_bytes g1 = EBytes bs -> range_to_bytes g2 = EBytes bs -> range_canon_pb g1 = range_canon_pb g2) /\
+  (forall n1 n2 bs, nd_wf n1 = true -> nd_wf n2 = true -> nd_to_stream n1 = EBytes bs -> nd_to_stream n2 = EBytes bs -> n1 = n2).
+Proof. exact container_enc_injective. Qed.
+Print Assumptions C18_container_enc_injective.
+
+(** non-vacuity: concrete containers of every kind are well formed and round-trip by computation; the normalisations are real
+    (these values do not come back unchanged); outside the hypothesis the encoders do alter (side 7 -> RIGHT, axis 2^32+1 -> 1),
+    panic (sample without proof) or refuse (row above serde's 1 MiB limit). *)
+Theorem C18_containers_nonvacuous :
+  cont_wf (CSample ex_sample) = true /\ cont_wf (CRow ex_row_left) = true /\ cont_wf (CRow ex_row_both) = true /\
+  cont_wf (CRnd ex_rnd_incl) = true /\ cont_wf (CRnd ex_rnd_abs) = true /\ cont_wf (CNd [ex_rnd_incl; ex_rnd_abs]) = true /\
+  cont_wf (CRange ex_range1) = true /\ cont_wf (CRange ex_range3) = true /\ cont_wf (CRange ex_range_zero) = true.
+Proof. exact examples_wf. Qed.
+Print Assumptions C18_containers_nonvacuous.
+
+Theorem C18_normalisations_are_real :
+  dec_eq (model_dec FProto KRowC (bytes_of (model_enc FProto (CRow ex_row_both)))) (CRow (mkrow [ex_share 1; ex_share 2] 0)) = true /\
+  dec_eq (model_dec FProto KSampleC (bytes_of (model_enc FProto (CSample (mksample (ex_share 5) (Some ex_absence) 0)))))
+         (CSample (mksample (ex_share 5) (Some (mkproof 1 2 [ex_node 7] [] true)) 0)) = true /\
+  dec_eq (model_dec FProto KRangeC (bytes_of (model_enc FProto (CRange ex_range_zero))))
+         (CRange (mkrange [[ex_share 1; ex_share 2]] (Some (mkproof 0 0 [] [] true)) None)) = true /\
+  dec_eq (model_dec FStream KRangeC (bytes_of (model_enc FStream (CRange ex_range_zero)))) (CRange ex_range_zero) = true /\
+  dec_eq (model_dec FStream KRangeC (bytes_of (model_enc FStream (CRange ex_range1)))) (CRange (mkrange [[ex_share 1]] (Some ex_proof) None)) = true.
+Proof. exact normalisations_are_real. Qed.
+Print Assumptions C18_normalisations_are_real.
